@@ -26,7 +26,7 @@ INDEPENDENT = ("copy", "full_like", "bin", "un", "cast", "get", "cumsum")
 
 # (stock_helper.stock_stack is not called: on the pinned tree it always raises a ValidationError, because it builds the stacked
 #  stock without dims; it is not exported from the package and no listed property speaks about it)
-API_CALLS = ("to_df", "from_df", "set_values_from_df", "stack", "split", "stock_from_arrays", "lifetime_prms",
+API_CALLS = ("neutral_arithmetic", "to_df", "from_df", "set_values_from_df", "stack", "split", "stock_from_arrays", "lifetime_prms",
              "to_stock_type", "sum_values", "items_where", "from_dims_superset")
 
 
@@ -114,15 +114,27 @@ def run_api(case):
 
     def arr(dims, cls=fd.FlodymArray, lo=1, hi=9):
         v = r.randint(lo, hi, size=dims.shape).astype(float)
-        if case["layout"] == "F":
+        if case["layout"] == "F" and v.ndim >= 2:
             v = np.asfortranarray(v)
         return cls(dims=dims, values=v)
 
     call = case["call"]
     # the property lists which results must be independent of their sources (copy, arithmetic, cast_to, full_like, slice reads);
     # of the calls below only split (slice reads) is among them -- for the others only "inputs unchanged" is demanded
-    independent = call == "split"
-    if call == "to_df":
+    independent = call in ("split", "neutral_arithmetic")
+    if call == "neutral_arithmetic":
+        # arithmetic with the neutral element, in both operand positions and through the builtin sum(): still a NEW array
+        a = arr(ds)
+        b = arr(fd.DimensionSet(dim_list=[]))
+        inputs = [a, b]
+        one = fd.FlodymArray(dims=ds, values=np.ones(ds.shape))
+        zero = fd.FlodymArray(dims=ds, values=np.zeros(ds.shape))
+        f = lambda: [0 + a, 0.0 + a, np.float64(0) + a, a + 0, a - 0, 1 * a, a * 1, 1.0 * a, a / 1, a ** 1, sum([a]), sum([a], 0),
+                     a + zero, zero + a, a * one, a.maximum(a), a.minimum(a), abs(a), +b if hasattr(b, "__pos__") else b + 0, 0 + b, b * 1,
+                     a.cast_to(ds), a.copy(), fd.FlodymArray.full_like(a, 1.0), a[...], a[{}]]
+        # (reductions that sum nothing, a.sum_to(all its dimensions), may return a view: the property does not list them)
+        outputs_of = lambda res: res
+    elif call == "to_df":
         a = arr(ds)
         inputs = [a]
         f = lambda: [a.to_df(index=i, dim_to_columns=c, sparse=s) for i in (True, False) for c in (None, "good") for s in (False, True)]
